@@ -5,6 +5,7 @@ CONSTANTS
   MaxReq = 3
   MaxConn = 4
   MaxFail = 3
+  EagerRelease = FALSE
 CONSTRAINT Bound
 INVARIANT NoViolation
 INVARIANT Structural
